@@ -19,6 +19,8 @@ OPTIONS = {
     'window': ['-go-low', '0.5', '-go-up', '0.9'],
     'resdist1': ['-go-res-dist', '1'],
     'resdist5-up': ['-go-res-dist', '5', '-go-up', '1.5'],
+    # explicit zeros are values, not "use the default"
+    'zeros': ['-go-res-dist', '0', '-go-low', '0', '-go-up', '0.8'],
 }
 CONTACT_SETS = ['all-symmetric', 'one-directional-mix', 'sparse']
 
@@ -64,18 +66,54 @@ def cli_case(item, acc):
         key = (atom['res'][0], atom['res'][1])
         if key not in residues:
             residues.append(key)
-    contacts = contacts_for(residues, kind)
+    contacts = contacts_for(residues, kind) if kind != 'internal' else None
     base = tempfile.mkdtemp(prefix='verif_c18cli_', dir='/dev/shm' if os.path.isdir('/dev/shm') else None)
     try:
         with open(os.path.join(base, 'in.pdb'), 'w') as handle:
             handle.write(c11.render_pdb(atoms))
-        with open(os.path.join(base, 'contacts.map'), 'w') as handle:
-            handle.write(map_text(residues, contacts))
-        res = cli.run_inprocess(['-f', 'in.pdb', '-x', 'cg.pdb', '-o', 'topol.top', '-maxwarn', '100', '-go', 'contacts.map'] + opts, base)
+        if kind == 'internal':
+            # the program computes the contact map itself and writes it out: that written map is the contact map of the statement
+            go_args = ['-go', '-go-write-file', 'written.map']
+        else:
+            with open(os.path.join(base, 'contacts.map'), 'w') as handle:
+                handle.write(map_text(residues, contacts))
+            go_args = ['-go', 'contacts.map']
+        res = cli.run_inprocess(['-f', 'in.pdb', '-x', 'cg.pdb', '-o', 'topol.top', '-maxwarn', '100'] + go_args + opts, base)
         if res['exit'] != 0:
             acc.case(outcome=('cli-exit', res['exit']))
             acc.violation('c18:cli-run-failed', 'martinize2 -go %r on %s exits %r\n%s' % (opts, name, res['exit'], res['stderr'][-400:]), case)
             return
+        if kind == 'internal':
+            # chains are merged before the map is computed: a later chain's numbers are shifted by the last number before it
+            shift, offsets, last = 0, {}, None
+            for chain, resid in residues:
+                if last is not None and chain != last[0]:
+                    shift = last[1] + offsets[last[0]]
+                offsets.setdefault(chain, shift)
+                last = (chain, resid)
+            rows = []
+            for raw in open(os.path.join(base, 'written.map')):
+                tokens = raw.split()
+                # (the map martinize2 writes has 17 columns: no trailing 'Model' column)
+                if len(tokens) in (17, 18) and tokens[0] == 'R' and (tokens[11] == '1' or (tokens[11] == '0' and tokens[14] == '1')):
+                    rows.append(((tokens[4], int(tokens[5])), (tokens[8], int(tokens[9]))))
+            # chains that are bonded to each other were one molecule from the start and keep their numbers: per chain, take the
+            # shift (the computed one or none) under which every number the map uses for that chain is a residue of the input
+            for chain in list(offsets):
+                used = {r for pair in rows for c, r in pair if c == chain}
+                have = {r for c, r in residues if c == chain}
+                if not {u - offsets[chain] for u in used} <= have and used <= have:
+                    offsets[chain] = 0
+            contacts = []
+            for a, b in rows:
+                a = (a[0], a[1] - offsets.get(a[0], 0))
+                b = (b[0], b[1] - offsets.get(b[0], 0))
+                contacts.append((a, b) if a in residues and b in residues else None)
+            if None in contacts or not contacts:
+                acc.case(outcome=('cli-internal-map', len(contacts)))
+                acc.violation('c18:cli-written-map', 'the contact map martinize2 wrote names residues that are not in the input, or is empty '
+                              '(%d contact lines)' % len(contacts), case)
+                return
         nb_path = os.path.join(base, 'go_nbparams.itp')
         nb_lines = [l.split(';')[0].split() for l in open(nb_path)] if os.path.exists(nb_path) else []
         top = readers.read_top(open(os.path.join(base, 'topol.top')).read())
@@ -125,10 +163,37 @@ def cli_case(item, acc):
                 for other in nums[1:]:
                     excl.add(frozenset((nums[0], other)))
         undecided = 0
+        # residue graph from the bonds and constraints the ITP lists between particles of different residues
+        res_of_atom = {}
+        current = -1
+        for idx, atom in enumerate(itp['atoms']):
+            if atom['atomname'] == 'BB':
+                current += 1
+            if atom['atomname'] != 'CA':
+                res_of_atom[idx] = current
+        adjacency = {k: set() for k in range(len(residues))}
+        for sec, guard, atoms_, params in itp['interactions']:
+            if sec in ('bonds', 'constraints') and len(atoms_) == 2:
+                a, b = int(atoms_[0]) - 1, int(atoms_[1]) - 1
+                if a in res_of_atom and b in res_of_atom and res_of_atom[a] != res_of_atom[b]:
+                    adjacency[res_of_atom[a]].add(res_of_atom[b])
+                    adjacency[res_of_atom[b]].add(res_of_atom[a])
+        graph_dist = {}
+        for start in adjacency:
+            seen = {start: 0}
+            frontier = [start]
+            while frontier:
+                nxt = []
+                for node in frontier:
+                    for nb in adjacency[node]:
+                        if nb not in seen:
+                            seen[nb] = seen[node] + 1
+                            nxt.append(nb)
+                frontier = nxt
+            graph_dist[start] = seen
         for i, j in itertools.combinations(range(len(residues)), 2):
             both = (residues[i], residues[j]) in listed and (residues[j], residues[i]) in listed
-            same_chain = residues[i][0] == residues[j][0]
-            gd = (j - i) if same_chain else None
+            gd = graph_dist[i].get(j)
             d = math.dist(pos[i], pos[j])
             if min(abs(d - values['low']), abs(d - values['up'])) < 3e-4:
                 undecided += 1
@@ -157,10 +222,13 @@ def cli_case(item, acc):
 
 
 def items(tier):
+    for name in ('bta3-12', 'bta-two-chains-6', 'bta15-22'):
+        for label in ('default', 'resdist1') if tier == 'quick' else list(OPTIONS):
+            yield name, 'internal', label
     for name in ('bta3-12', 'bta-two-chains-6'):
         for kind in CONTACT_SETS:
             for label in OPTIONS:
-                if tier == 'quick' and kind != 'one-directional-mix' and label not in ('default', 'resdist1'):
+                if tier == 'quick' and kind != 'one-directional-mix' and label not in ('default', 'resdist1', 'zeros'):
                     continue
                 yield name, kind, label
 
